@@ -704,6 +704,13 @@ impl Terminal {
             if self.cursor.row == self.bottom_margin {
                 self.buffer.wrap(self.cursor.row);
                 self.scroll_up_in_region(1);
+
+                if self.bottom_margin < self.rows - 1 {
+                    // scroll_up() unwraps the last line of a region that ends
+                    // above the bottom of the view; the line we've just left
+                    // continues on the freshly scrolled-in line
+                    self.buffer.wrap(self.cursor.row - 1);
+                }
             } else if self.cursor.row < self.rows - 1 {
                 self.buffer.wrap(self.cursor.row);
                 self.do_move_cursor_to_row(self.cursor.row + 1);
